@@ -239,16 +239,28 @@ def c11_resize_cv2(ctx, dtype):
     ctx.ensure("resize keeps dimensions and origin", out.dimensions == img.dimensions and bool(np.allclose(out.origin, img.origin)))
 
 
-@ob("C11.superpose", kind="B", cases=[dict(n=k, anchor=a) for k in (1, 2, 3, 4) for a in ("near", "far", "far-negative")], funcs=FUNCS, samples=(1, 3), tol=1e-6,
+@ob("C11.superpose", kind="B", cases=[dict(n=k, anchor=a) for k in (1, 2, 3, 4) for a in ("near", "far", "far-negative", "integer-metadata")], funcs=FUNCS, samples=(1, 3), tol=1e-6,
     cite="superposition of grid-aligned images onto a common canvas ... preserve the physical integral ... superposing images that share a grid equals adding their arrays",
     note="bounded: cv2.warpPerspective based; voxel-aligned, exactly representable offsets")
 def c11_superpose(ctx, n, anchor):
     rng = np.random.default_rng(ctx.rng.randrange(1 << 30))
     # "far": millimetre voxels on a grid anchored ~1e3 voxel-size units from the coordinate origin - a whole-voxel offset is then below
     # the relative tolerance of np.allclose / np.isclose on the corner coordinates (all values exactly representable)
-    h, ox, oy = {"near": (0.25, 1.0, 2.0), "far": (2.0 ** -10, 1024.0, 2048.0), "far-negative": (2.0 ** -10, -4096.0, 512.0)}[anchor]
+    h, ox, oy = {"near": (0.25, 1.0, 2.0), "far": (2.0 ** -10, 1024.0, 2048.0), "far-negative": (2.0 ** -10, -4096.0, 512.0), "integer-metadata": (0.5, 0, 2)}[anchor]
     shape = (4, 6)
-    same_grid = [darsia.ScalarImage(rng.random(shape), dimensions=[shape[0] * h, shape[1] * h], origin=[ox, oy]) for _ in range(n)]
+    if anchor == "integer-metadata":
+        # how a number is written is not part of its meaning: integral extents / origins are handed over as Python ints (integer-dtype
+        # metadata arrays inside the images), the others as floats - in one list of images
+        _Scalar = darsia.ScalarImage
+        num = lambda v: int(v) if float(v).is_integer() else float(v)
+
+        class _D:
+            @staticmethod
+            def ScalarImage(arr, dimensions, origin):
+                return _Scalar(arr, dimensions=[num(v) for v in dimensions], origin=[num(v) for v in origin])
+    else:
+        _D = darsia
+    same_grid = [_D.ScalarImage(rng.random(shape), dimensions=[shape[0] * h, shape[1] * h], origin=[ox, oy]) for _ in range(n)]
     out = darsia.superpose(same_grid)
     ctx.ensure("images sharing a grid: superposition == sum of the arrays", out.img.shape == shape and bool(np.allclose(out.img, sum(im.img for im in same_grid), atol=1e-9)))
     ctx.ensure("images sharing a grid: metadata kept", bool(np.allclose(out.origin, [ox, oy], rtol=0, atol=h * 1e-6)) and bool(np.allclose(out.dimensions, [shape[0] * h, shape[1] * h], rtol=1e-9, atol=0)))
@@ -256,7 +268,7 @@ def c11_superpose(ctx, n, anchor):
     shifted = []
     for k in range(n):
         off = (k % 2, (k + 1) // 2)
-        shifted.append(darsia.ScalarImage(rng.random(shape), dimensions=[shape[0] * h, shape[1] * h], origin=[ox + off[1] * h, oy - off[0] * h]))
+        shifted.append(_D.ScalarImage(rng.random(shape), dimensions=[shape[0] * h, shape[1] * h], origin=[ox + off[1] * h, oy - off[0] * h]))
     outs = darsia.superpose(shifted)
     rows_, cols_ = shape[0] + max(k % 2 for k in range(n)), shape[1] + max((k + 1) // 2 for k in range(n))
     tot = sum(im.img.sum() for im in shifted) * h * h
@@ -265,8 +277,10 @@ def c11_superpose(ctx, n, anchor):
     imgs = []
     for k in range(n):
         sh = (int(rng.integers(2, 5)), int(rng.integers(2, 6)))
-        off = (int(rng.integers(0, 4)), int(rng.integers(0, 4)))
-        imgs.append(darsia.ScalarImage(rng.random(sh), dimensions=[sh[0] * h, sh[1] * h], origin=[ox + off[1] * h, oy - off[0] * h]))
+        off = (int(rng.integers(-3, 4)), int(rng.integers(-3, 4)))            # in either direction: any image may hold an extremal corner
+        if anchor == "integer-metadata" and k < 2:
+            off = [(0, 0), (-1, -1)][k]            # the first image is written in integers, the second holds the (fractional) extremal corner
+        imgs.append(_D.ScalarImage(rng.random(sh), dimensions=[sh[0] * h, sh[1] * h], origin=[ox + off[1] * h, oy - off[0] * h]))
     out = darsia.superpose(imgs)
     vol = h * h
     ctx.ensure("voxel-aligned offsets: physical integral of the superposition == sum of the integrals", abs(out.img.sum() * np.prod(out.voxel_size) - sum(im.img.sum() * vol for im in imgs)) <= 1e-6 * max(1.0, sum(im.img.sum() * vol for im in imgs)))
@@ -275,6 +289,9 @@ def c11_superpose(ctx, n, anchor):
     ymax = max(im.origin[1] for im in imgs); ymin = min(im.opposite_corner[1] for im in imgs)
     ctx.ensure("canvas extent == extremal corners of the inputs", bool(np.allclose(out.dimensions, [ymax - ymin, xmax - xmin], rtol=1e-9, atol=0)) and bool(np.allclose(out.origin, [xmin, ymax], rtol=0, atol=h * 1e-6)))
     ctx.ensure("inputs untouched", all(im.img.shape == s.img.shape for im, s in zip(imgs, imgs)))
+    rev = darsia.superpose(imgs[::-1])
+    ctx.ensure("the order of the list does not matter (canvas and data)", rev.img.shape == out.img.shape and bool(np.allclose(rev.img, out.img, atol=1e-9))
+               and bool(np.allclose(rev.origin, out.origin, rtol=0, atol=h * 1e-6)) and bool(np.allclose(rev.dimensions, out.dimensions, rtol=1e-9, atol=0)))
 
 
 @ob("C11.dep_cv2", kind="B", samples=(2, 6), funcs=[], tol=2e-7, cite="(validation of assumed dependency contracts)",
